@@ -25,6 +25,10 @@
    Property
      PureFunction     every query returns the curve AT THE CURRENT CONTENTS:  ret.at = ret.exp
    Deviation
+     QueryIsPure, ArgumentsUnchanged, EarlierResultsUnchanged   frame laws of every query (the replay
+                      observes them around every call: symbol table, argument, previously returned array)
+   Deviations
+     Dev.QueryTouchesTable / QueryWritesArgument / ResultBufferReused   one per frame law
      Dev.CachesByIdentity   the last single-carrier value is reused whenever the argument `is` the
                       object seen last (the contents are not compared): TLC finds
                       Query(buffer) - Advance - Query(buffer).
@@ -39,19 +43,25 @@ CONSTANTS Steps,     \* set of in-place increments in dB
           Hows,      \* set of argument kinds
           Dev
 
-VARIABLES shift, lastObj, lastShift, ret, lab
-vars == <<shift, lastObj, lastShift, ret, lab>>
-View == <<shift, lastObj, lastShift, ret>>
+VARIABLES shift, lastObj, lastShift, ret, lab,
+          frame     \* frame observations of the last step (call discipline): [table, args, held] - the symbol table
+                    \* is as before the query, the argument is as it was passed, the array returned by the previous
+                    \* query still holds what it held
+vars == <<shift, lastObj, lastShift, ret, lab, frame>>
+View == <<shift, lastObj, lastShift, ret, frame>>
+FrameOk == [table |-> TRUE, args |-> TRUE, held |-> TRUE]
 
 Init == /\ shift = 0 /\ lastObj = "none" /\ lastShift = 0
         /\ ret = [op |-> "none", at |-> 0, exp |-> 0]
         /\ lab = [fn |-> "none", how |-> "none", d |-> 0]
+        /\ frame = FrameOk
 
 Advance(d) ==
   /\ shift + d <= MaxShift
   /\ shift' = shift + d
   /\ ret' = [op |-> "advance", at |-> shift + d, exp |-> shift + d]
   /\ lab' = [fn |-> "advance", how |-> "inplace", d |-> d]
+  /\ frame' = FrameOk
   /\ UNCHANGED <<lastObj, lastShift>>
 
 Query(fn, how) ==
@@ -62,6 +72,9 @@ Query(fn, how) ==
      /\ lab' = [fn |-> fn, how |-> how, d |-> 0]
      /\ lastObj' = obj
      /\ lastShift' = IF hit THEN lastShift ELSE shift
+     /\ frame' = [table |-> ~Dev.QueryTouchesTable,
+                  args  |-> ~(Dev.QueryWritesArgument /\ how \in {"buffer", "copy", "view"}),
+                  held  |-> ~(Dev.ResultBufferReused /\ ret.op = "query")]
      /\ UNCHANGED shift
 
 AdvanceAny == \E d \in Steps : Advance(d)
@@ -69,6 +82,11 @@ QueryAny   == \E fn \in Fns : \E how \in Hows : Query(fn, how)
 Next == AdvanceAny \/ QueryAny
 
 PureFunction == ret.op = "query" => ret.at = ret.exp
+\* frame laws (notes/CALL_DISCIPLINE.md): a query leaves the modulator as it was, its argument as it was passed,
+\* and the result of the previous query as it was returned
+QueryIsPure == frame.table
+ArgumentsUnchanged == frame.args
+EarlierResultsUnchanged == frame.held
 TypeOK == /\ shift \in 0..MaxShift /\ lastShift \in 0..MaxShift
           /\ lastObj \in {"none", "buffer", "fresh"}
           /\ ret.op \in {"none", "advance", "query"}
